@@ -173,6 +173,11 @@ def _fix_atomic_specifiers_once(
         # its location when we replace the wrapper Typename.
         node.type.coord = parent.coord
     cast(Any, grandparent).type = node.type
+    # The wrapper TypeDecl that is dropped here carries the qualifiers written
+    # next to the specifier (const _Atomic(int) x): keep them.
+    outer_quals = [q for q in (parent.quals or []) if q not in node.type.quals]
+    if outer_quals:
+        node.type.quals[:0] = outer_quals
     if "_Atomic" not in node.type.quals:
         node.type.quals.append("_Atomic")
     return decl, True
